@@ -42,7 +42,8 @@ BOUND = {
     "input names x 3 positions x 6 force fields x 3 option sets + strands + "
     "user force field runs",
     "thorough": "A: all cells; B: all programs of <=4 sections (7380); C: as "
-    "quick plus hydrogenated inputs for every option set and chain layouts",
+    "quick plus hydrogenated inputs for the default and --noopt --nodebump "
+    "option sets",
 }
 
 OPTION_SETS = {
@@ -379,6 +380,17 @@ def enumerate_cases(tier, seed):
                                   "opt": optname,
                                   "desc": {"x": x, "pos": pos,
                                            "waters": [[9.0, 9.0, 9.0]]}})
+    if tier == "thorough":
+        # hydrogenated inputs through the full pipeline (input hydrogens are
+        # kept or rebuilt; parameters must not depend on that)
+        for optname in ("default", "noopt_nodebump"):
+            for ff in corpus.FFS:
+                for x in corpus.INPUT_NAMES:
+                    for pos in corpus.POSITIONS:
+                        cases.append({"mode": "e2e", "kind": "host", "ff": ff,
+                                      "opt": optname,
+                                      "desc": {"x": x, "pos": pos,
+                                               "hydrogens": True}})
     strands = [(["DA", "DT", "DG"], "legacy"), (["DC", "DG", "DA"], "modern"),
                (["RA", "RU", "RG"], "legacy"), (["RC", "RG", "RU"], "short"),
                (["DT", "DC"], "legacy"), (["RU", "RC"], "modern")]
